@@ -1,6 +1,6 @@
 HOOK_COMMITS = ["1ae4f10", "19e3492"]
 ENGINES = [
-    {"name": "ipamsim", "path": "/verif/harness/ipamsim", "serves_properties": ["C01", "C02", "C03", "C04", "C05", "C06", "C07", "C08", "C09", "C10"],
+    {"name": "ipamsim", "path": "/verif/harness/ipamsim", "serves_properties": ["C01", "C02", "C03", "C04", "C05", "C06", "C07", "C08", "C09", "C10", "C11"],
      "kind_free_text": "simulated cluster around the real galaxy-ipam plugin: fake API server trackers, informer model, cooperative "
                        "scheduler owning the interleaving, fault/crash injection, recording cloud provider; rapid stateful generation"},
     {"name": "codec", "path": "/verif/harness/codec", "serves_properties": ["C20"],
@@ -48,3 +48,5 @@ TEXTS["C06"] = _h("DESIGN.md §4 C06", "property-based testing (rapid): generate
                   "The filter result and the binding payload are compared with a model derived from the configuration text, independent of IPAM's tables.")
 TEXTS["C08"] = _h("DESIGN.md §4 C08", "fault-injection property testing (rapid): per-case enumeration of the failing creation index, conformance / all-or-nothing vs. pre-state",
                   "Every creation index of every generated request is failed once, at the IPAM level and through Filter+Bind.")
+TEXTS["C11"] = _h("DESIGN.md §4 C11", "property-based testing (rapid): key codec round trip/injectivity and list->release differential + paging partition through the real HTTP routes",
+                  "Generated names/owners/pools; the list output is fed back into release, which no test of the suite does.")
